@@ -160,3 +160,13 @@ Lemma ts_written_example :
   ts_written muldiv_w TsAC3 44100 (-1099511627776 - 777) 3 = -2243901273357 /\
   conv (frame_pos TsAC3 (-1099511627776 - 777) 3) 44100 ts_rate = -2243901273357.
 Proof. vm_compute. split; reflexivity. Qed.
+
+(* RTMP writer path: the branches that derive one timestamp per frame convert the frame's position (unit timestamp pts +
+   adv, the lengths of the earlier frames of the unit) to nanoseconds with timestampToDuration *)
+Lemma dur_frame_exact rate pts adv :
+  1 <= rate <= two32 -> in_int64 (pts + adv) -> in_int64 (conv (pts + adv) rate nanos) ->
+  (fun t r => muldiv_w t nanos r) (wrap64 (pts + adv)) rate = conv (pts + adv) rate nanos.
+Proof.
+  intros Hr Hp He. cbv beta. rewrite wrap64_id by assumption. unfold conv in *.
+  apply muldiv_exact; try assumption. unfold scale_ok, nanos, two32 in *. repeat split; lia.
+Qed.
